@@ -218,8 +218,7 @@ Example C14_ex_accepted :
          (PanicExample.jreq (PanicExample.jtx (JArr [PanicExample.jin]) (JArr [PanicExample.jout]))))
   = true.
 Proof.
-  split; [|vm_compute; reflexivity].
-  apply wire_step_preserves_ok. exact node_empty_ok.
+  split; [exact n_gen_ok | vm_compute; reflexivity].
 Qed.
 
 (* the same transaction with no outputs, with a null output, with a null input: refused by the
